@@ -38,6 +38,9 @@ rule("C12.e", "a duration / rate in main time units is never compared with a pur
               "grid steps", floor=1, props=["C12", "C06"])
 rule("C08.e", "the take right-hand side is value / period length x covered step lengths (time degree 0)", floor=1)
 
+rule("C12.m", "what accumulates over time is accumulated with the step lengths inside: cumsum(rate x dt ...), a suffix sum of cost x dt x discount. "
+              "The step-length vector never multiplies a cumulated vector from outside (dt_i x sum_j z_j is sum_j dt_j z_j only when all steps are "
+              "equally long: holding costs of a storage on a monthly grid, across a daylight-saving switch)", floor=1, props=["C12", "C05", "C02"])
 rule("C12.l", "a rate or duration given in main time units is kept as given: the constructor stores the parameter itself - not int(), round(), "
               "floor() or ceil() of it. Whole numbers in one main time unit are fractions in another (6 h = 0.25 d): rounding before the "
               "conversion to grid steps makes the result depend on the main time unit", floor=10, props=["C12", "C06"])
@@ -68,7 +71,7 @@ rule("C16.l", "scaled asset: what it adds to the cost vector - the fix costs of 
               "units (time degree 0), like every other entry of c; not rate x number of steps", floor=1)
 
 
-@analysis("degrees", ["C12.a", "C02.a", "C02.b", "C12.c", "C19.d", "C08.e", "C12.e", "C20.j", "C12.f", "C12.k", "C12.h", "C12.i", "C16.l", "C06.o", "C12.l"])
+@analysis("degrees", ["C12.a", "C02.a", "C02.b", "C12.c", "C19.d", "C08.e", "C12.e", "C20.j", "C12.f", "C12.k", "C12.h", "C12.i", "C16.l", "C06.o", "C12.l", "C12.m"])
 def run(ctx):
     p = ctx.p
     summaries = {}
@@ -369,3 +372,60 @@ def run(ctx):
                    "with 'd' (value 2300 vs 2780)" % (cname, attr, "duration" if seeds[attr] > 0 else "rate", au.short(val, 40)), node=st,
                    ok_detail="stored as given")
     ctx.require(n_l >= 10, "fewer than 10 dimensioned constructor parameters found", rules=["C12.l"])
+
+
+    # ================================================================= C12.m the step length inside the accumulation
+    CUM = ("cumsum", "accumulate", "cumulative_sum")
+    n_m = 0
+    for fn in sorted(p.all_functions(), key=lambda f: f.qualname):
+        if fn.parent is not None or fn.cls is None or not p.is_subclass(fn.cls, "Asset"):
+            continue
+        ffm = None
+
+        def is_dt(e, st):
+            if isinstance(e, ast.Attribute):
+                return e.attr == "dt"
+            if isinstance(e, ast.Subscript):
+                return is_dt(e.value, st) and not (au.const_num(e.slice) is not None)
+            if isinstance(e, ast.Name):
+                ds = [d for d in ffm.defs(e.id, st) if d.kind == "assign" and d.value is not None]
+                return bool(ds) and all(isinstance(d.value, ast.Attribute) and d.value.attr == "dt" for d in ds)
+            return False
+
+        def cumulations(e):
+            out = []
+            for x in au.walk_local(e):
+                if isinstance(x, ast.Call) and au.method_name(x) in CUM:
+                    operand = x.func.value if (isinstance(x.func, ast.Attribute) and not (isinstance(x.func.value, ast.Name) and x.func.value.id in ("np", "numpy"))
+                                               and au.method_name(x) == "cumsum") else (x.args[0] if x.args else None)
+                    out.append((x, operand))
+                elif isinstance(x, ast.ListComp) and any(isinstance(y, ast.Call) and au.method_name(y) == "sum" for y in au.walk_local(x.elt)) and any(
+                        isinstance(y, ast.Subscript) and isinstance(y.slice, ast.Slice) for y in au.walk_local(x.elt)):
+                    out.append((x, x.elt))      # [v[i:].sum() for i in ...]: a suffix sum
+            return out
+
+        for st in au.walk_stmts(fn.body):
+            if not isinstance(st, (ast.Assign, ast.AugAssign)) or st.value is None:
+                continue
+            ffm = ffm or ctx.flow(fn)
+            for x in au.walk_local(st.value):
+                if not (isinstance(x, ast.BinOp) and isinstance(x.op, ast.Mult)):
+                    continue
+                if isinstance(p.parent(x), ast.BinOp) and isinstance(p.parent(x).op, ast.Mult):
+                    continue
+                factors = au.flatten_binop(x, ast.Mult)
+                dts = [f for f in factors if is_dt(f, st)]
+                cums = [(f, c) for f in factors for c in cumulations(f)]
+                if not cums:
+                    continue
+                n_m += 1
+                outside = bool(dts) and any(op is not None and not any(is_dt(y, st) for y in au.walk_local(op)) and not any(
+                    isinstance(y, ast.Name) and any(is_dt(z, d.node) for d in ffm.defs(y.id, st) if d.value is not None for z in au.walk_local(d.value))
+                    for y in au.walk_local(op)) for _, (c, op) in cums)
+                ctx.ob("C12.m", fn, au.short(x, 80), not outside,
+                       "the step-length vector multiplies the cumulated vector %s from outside: step i is charged dt_i x (sum over the later steps) instead "
+                       "of the sum over the later steps of dt_j x (...) - equal only on an equidistant grid. Holding 10 units for 120 days on a "
+                       "monthly grid costs 12.4 instead of 12.0" % au.short(cums[0][1][0], 50), node=x, ok_detail="step lengths inside the accumulation")
+        # cumulation statements without an outer product (the common form): dt must be inside when the operand carries a rate
+    if n_m == 0:
+        ctx.ob("C12.m", "package", "products with a cumulated factor", True, ok_detail="no product of a step-length vector with a cumulated vector")
